@@ -25,16 +25,16 @@ import (
 var otherStates = []string{"idle", "unread-c2t", "unread-t2c", "unread-both", "app-closed-target-open", "target-closed-app-open", "busy"}
 
 // operations issued on the connection under observation
-var ops = []string{"open+echo", "echo64k", "close-by-app", "close-by-target", "big-transfer"}
+var ops = []string{"open+echo", "echo64k", "close-by-app", "close-by-target", "big-transfer", "refused-open"}
 
 type scriptCase struct {
 	Carrier  string   `json:"carrier"`
 	Channels int      `json:"channels"`
-	Others   []string `json:"others"`        // state of each other connection
-	Unread   []int    `json:"unread_bytes"`  // per other connection, for the unread states
+	Others   []string `json:"others"`       // state of each other connection
+	Unread   []int    `json:"unread_bytes"` // per other connection, for the unread states
 	Op       string   `json:"op"`
 	Seed     int64    `json:"seed"`
-	SameChan bool     `json:"same_channel"`  // the observed connection uses the same channel as other #0
+	SameChan bool     `json:"same_channel"` // the observed connection uses the same channel as other #0
 }
 
 type held struct {
@@ -144,6 +144,44 @@ func runScript(rec *vcommon.Rec, p *e2e.Pair, c *scriptCase) (stalled bool) {
 		others = append(others, h.key, h.key+1000)
 	}
 	var f *e2e.Failure
+	if c.Op == "refused-open" {
+		// a local connection for a channel the server refuses (that refusal is C03's subject) must not
+		// disturb the others: every idle held connection, and a new one, must still work afterwards
+		if bad, derr := p.Dial("chx"); derr == nil {
+			bad.Write([]byte("hello?"))
+			gone := e2e.Go(func() {
+				b := make([]byte, 64)
+				for {
+					if _, e := bad.Read(b); e != nil {
+						return
+					}
+				}
+			})
+			if e2e.Wait(gone) == e2e.Done {
+				rec.Stat("refused_opens_performed", 1)
+			}
+			bad.Close()
+		}
+		for i, h := range hs {
+			if c.Others[i] != "idle" {
+				continue
+			}
+			if f = e2e.Duplex(h.app, h.tgt, &e2e.Stream{Key: h.key + 7, Len: 300}, &e2e.Stream{Key: h.key + 1007, Len: 300}, "c2t", "t2c", nil); f != nil {
+				f.Kind = "held-idle-connection-broken-after-a-refused-open:" + f.Kind
+				break
+			}
+			rec.Stat("held_connections_verified_after_refused_open", 1)
+		}
+		if f != nil {
+			rec.Case(key, !f.Inconclusive)
+			if f.Inconclusive {
+				rec.Inconclusive(f.Kind, c)
+				return false
+			}
+			rec.Violation(fmt.Sprintf("%s:%s:%s", sigBase, c.Op, f.Kind), c, f.Info)
+			return strings.Contains(f.Kind, "stalled")
+		}
+	}
 	app, tgt, o, err := p.Open(ch)
 	switch {
 	case err != nil:
@@ -160,7 +198,7 @@ func runScript(rec *vcommon.Rec, p *e2e.Pair, c *scriptCase) (stalled bool) {
 			return e2e.Duplex(app, tgt, &e2e.Stream{Key: obsKey, Len: n}, &e2e.Stream{Key: obsKey + 1000, Len: n}, "c2t", "t2c", others)
 		}
 		switch c.Op {
-		case "open+echo":
+		case "open+echo", "refused-open":
 			f = echo(100)
 		case "echo64k":
 			f = echo(65536)
@@ -228,6 +266,9 @@ func scriptCases(rec *vcommon.Rec, carrier string) []*scriptCase {
 			}
 			c.Others = append(c.Others, st)
 			c.Unread = append(c.Unread, u)
+		}
+		if c.Op == "refused-open" {
+			c.Others[0], c.Unread[0] = "idle", 0
 		}
 		out = append(out, c)
 	}
@@ -574,5 +615,7 @@ func startFor(c *scriptCase) (*e2e.Pair, error) {
 	for i := 0; i < 3; i++ {
 		chans = append(chans, e2e.ChanSpec{Name: chanName(i)})
 	}
-	return e2e.Start(e2e.Options{Carrier: c.Carrier, Channels: chans, Tag: "c"})
+	// a fourth listener asks the server for a channel name it does not offer: such a connection is refused
+	chans = append(chans, e2e.ChanSpec{Name: "chx"})
+	return e2e.Start(e2e.Options{Carrier: c.Carrier, Channels: chans, Tag: "c", ListenerNames: map[string]string{"chx": "not-offered-by-the-server"}})
 }
